@@ -447,8 +447,47 @@ def run(ctx):
                 "after a commit/fetch retry timer has fired, stop() raises AlreadyCalled half-way: looper left running, start Deferred unfired",
                 facts=["callbacks=%s" % sorted(g.name for g in cbs)])
 
-    # ---- R6 restartable (flags)
-    r = ctx.rule("R6", "stop() resets _stopping and clears the start Deferred on every normal path", 1, "A")
+    # ---- R6 restartable
+    r = ctx.rule("R6", "stop() resets _stopping, and every handle that gates a function start() calls is clear after stop()", 2, "A")
+    from .util import reachable_funcs
+    for g in reachable_funcs(prog, start).values():
+        if g.cls is not ci or g is start:
+            continue
+        cg = ctx.cfg(g)
+        for n in cg.nodes:
+            if n.kind != "test" or not isinstance(n.stmt, ast.If):
+                continue
+            h = self_attr(n.stmt.test)
+            if h not in handles:
+                continue
+            tsucc = [t for t, lab in cg.succ[n.id] if lab and lab[0] == "cond" and lab[2]]
+            arm = cg.reach(tsucc, avoid=[t for t, lab in cg.succ[n.id] if lab and lab[0] == "cond" and not lab[2]]) | set(tsucc)
+            pure_exit = cg.exit.id in arm and not any(
+                call_name(c) and (call_recv(c) or "").split(".")[0] not in ("log", "logging") for i in arm for c in cg.nodes[i].calls())
+            if not pure_exit:
+                continue
+            # (a) stop() clears it on every normal path, or (b) every handler registered on it clears it on every path
+            cstop = ctx.cfg(stop)
+            a_ok = all(known_falsy(fst[pid], "self." + h) or getattr(node_assign_value(cstop.nodes[pid], h), "value", 1) is None
+                       for pid, lab in cstop.pred[cstop.exit.id])
+            b_ok = True
+            n_h = 0
+            for f2 in [x for x in prog.funcs.values() if x.cls is ci]:
+                for reg in registrations(f2, prog):
+                    if reg["root"] in aliases_of(f2, "self." + h):
+                        for hh in (reg["cb"], reg["eb"]):
+                            hf = prog.resolve_callable(f2, hh) if hh is not None else None
+                            if hf is not None:
+                                n_h += 1
+                                ch = ctx.cfg(hf)
+                                cl2 = [m.id for m in ch.nodes if getattr(node_assign_value(m, h), "value", 1) is None]
+                                if not cl2 or ch.normal_exits_from(ch.entry.id, avoid=cl2):
+                                    b_ok = False
+            r.check(a_ok or (b_ok and n_h > 0), "%s#gate(%s)-clear-after-stop" % (g.qname, h),
+                    "`if self.%s: return` gates %s, but neither stop() clears self.%s nor do all of its handlers on every path "
+                    "(a reply parked behind the processor leaves the fired Deferred in place)" % (h, g.name, h), where(g, n.stmt),
+                    "stop() while a fetch reply is parked; start() again: the stale handle makes the fetcher return at once, the "
+                    "restarted consumer never fetches")
     rs = [n.id for n in cs.nodes if isinstance(node_assign_value(n, "_stopping"), ast.Constant) and node_assign_value(
         n, "_stopping").value is False]
     sets = [n.id for n in cs.nodes if isinstance(node_assign_value(n, "_stopping"), ast.Constant) and node_assign_value(
@@ -500,6 +539,9 @@ MUTANTS = [
     {"id": "fired-commit-timer-not-cleared", "file": "consumer.py",
      "old": "        if self._commit_call and not self._commit_call.active():\n            self._commit_call = None\n", "new": "", "expect": "C13.R7",
      "note": "seeded C13-2"},
+    {"id": "stop-leaves-fired-request-handle", "file": "consumer.py",
+     "old": "            # It may already have fired (a reply parked behind the processor):\n            # don't let a stale handle block the fetcher after a restart.\n            self._request_d = None\n",
+     "new": "", "expect": "C13.R6", "note": "finding F15"},
     {"id": "stopping-not-reset", "file": "consumer.py", "old": "        # Done stopping\n        self._stopping = False\n", "new": "",
      "expect": "C13.R6"},
 ]
